@@ -1,5 +1,4 @@
-(* C15 — announce tokens and the peer store: token_window, announce_then_get (refuted as stated,
-   proved for the byte order the code really stores). *)
+(* C15 — announce tokens and the peer store: token_window, announce_then_get. *)
 From Coq Require Import List NArith Bool Lia.
 From LTV.C15 Require Import ParamsGen.
 From LTV.C15 Require Import Model.
@@ -36,14 +35,30 @@ Proof.
   - intros H. split; [|exact H]. apply N.eqb_eq. destruct H as [H|H]; rewrite H; apply token_len.
 Qed.
 
-(* an announce is accepted (the peer store is touched, no error reply) iff the token is valid *)
+(* an announce (with a port in 1..65535) is accepted iff the token is valid; a refused announce
+   changes nothing *)
+Definition port_ok (port : N) : Prop := 1 <= port /\ port <= 65535.
+Lemma port_ok_test : forall port, port_ok port -> ((port <? 1) || (65535 <? port)) = false.
+Proof. intros port [A B]. apply orb_false_iff. split; apply N.ltb_ge; assumption. Qed.
+
 Lemma announce_accept_iff : forall s ih ip port tok,
-  err s = false ->
+  err s = false -> port_ok port ->
   (snd (step s (OAnnounce ih ip port tok)) = Rnone <-> token_valid s tok ip = true) /\
   (snd (step s (OAnnounce ih ip port tok)) = Rerr 1 <-> token_valid s tok ip = false) /\
   (token_valid s tok ip = false -> fst (step s (OAnnounce ih ip port tok)) = s).
 Proof.
-  intros. unfold Model.step. rewrite H. destruct (token_valid s tok ip); simpl; repeat split; intros; congruence.
+  intros s ih ip port tok H P. unfold Model.step. rewrite H, (port_ok_test _ P).
+  destruct (token_valid s tok ip); simpl; repeat split; intros; congruence.
+Qed.
+
+(* whatever the token, a port outside 1..65535 is never stored *)
+Lemma announce_bad_port : forall s ih ip port tok, err s = false -> ~ port_ok port ->
+  fst (step s (OAnnounce ih ip port tok)) = s /\ snd (step s (OAnnounce ih ip port tok)) <> Rnone.
+Proof.
+  intros s ih ip port tok H P. unfold Model.step. rewrite H.
+  destruct (token_valid s tok ip); [|split; [reflexivity|discriminate]].
+  destruct ((port <? 1) || (65535 <? port)) eqn:E; [split; [reflexivity|discriminate]|].
+  exfalso. apply P. apply orb_false_iff in E. destruct E as [A B]. apply N.ltb_ge in A. apply N.ltb_ge in B. split; assumption.
 Qed.
 
 (* secrets supplied by the housekeeping ops of an op list, oldest first *)
@@ -56,12 +71,46 @@ Fixpoint secrets (ops : list op) : list N :=
 
 Definition rot (cp : N * N) (x : N) : N * N := (x, fst cp).
 
+Ltac crush := repeat (match goal with
+  | |- context [match ?x with _ => _ end] => destruct x
+  | |- context [if ?x then _ else _] => destruct x
+  end; simpl); try reflexivity.
+
+Lemma node_queried_cp : forall s id ip, let s' := fst (node_queried s id ip) in
+  cur s' = cur s /\ prev s' = prev s /\ own s' = own s /\ now s' = now s /\ err s' = err s.
+Proof. intros. unfold s', node_queried. crush; repeat split. Qed.
+
+Lemma query_body_cp : forall s ip rnd q m, let s' := fst (query_body sha s ip rnd q m) in
+  cur s' = cur s /\ prev s' = prev s /\ own s' = own s /\ now s' = now s /\ err s' = err s.
+Proof. intros. unfold s', query_body. crush; repeat split. Qed.
+
+Lemma dgram_cp : forall s ip rnd m, let s' := fst (dgram sha s ip rnd m) in
+  cur s' = cur s /\ prev s' = prev s /\ own s' = own s /\ now s' = now s /\ err s' = err s.
+Proof.
+  intros. unfold s', dgram.
+  destruct (m_t m) as [t|]; [|repeat split]. destruct (20 <? lenN t); [repeat split|].
+  destruct (m_y m) as [[|ty [|? ?]]|]; try (repeat split; fail).
+  destruct (ty =? 113); [|repeat split]. destruct (m_id m) as [idb|]; [|repeat split].
+  destruct (lenN idb <? hs_len); [repeat split|].
+  generalize (be_to_N (firstn idbytes idb)). intro nid0. destruct (nid0 =? own s); [repeat split|].
+  destruct (m_q m) as [q|]; [|repeat split].
+  pose proof (query_body_cp s ip rnd q m) as H. cbv zeta in H.
+  destruct (query_body sha s ip rnd q m) as [s1 [e|[[tok nodes] vals]]]; cbn [fst snd] in *; [assumption|].
+  pose proof (node_queried_cp s1 nid0 ip) as H2. cbv zeta in H2.
+  destruct H as [A [B [C [D E]]]]. destruct H2 as [A2 [B2 [C2 [D2 E2]]]].
+  repeat split; congruence.
+Qed.
+
 Lemma step_secrets : forall s o, err s = false ->
   (cur (fst (step s o)), prev (fst (step s o))) = fold_left rot (secrets [o]) (cur s, prev s) /\
   (err (fst (step s o)) = true -> True).
 Proof.
   intros s o He. split; [|trivial]. unfold Model.step. rewrite He.
-  destruct o; simpl; try reflexivity.
+  destruct o as [ip rnd m|ip|dt|id ip port|id ip port|id ip port|id|secret|ip|tok ip|ih ip port tok|ih ip rnd|target|id|];
+    simpl; try reflexivity.
+  - pose proof (dgram_cp s ip rnd m) as H. cbv zeta in H. destruct H as [A [B _]].
+    destruct (m_y m) as [[|ty [|? ?]]|]; try (destruct (dgram sha s ip rnd m); simpl in *; congruence).
+    destruct ((ty =? 114) || (ty =? 101)); [reflexivity|]. destruct (dgram sha s ip rnd m); simpl in *; congruence.
   - destruct (id =? own s); [reflexivity|]. unfold node_queried.
     destruct (lookup id (tb (tab s))) as [[k n]|]; [|reflexivity]. destruct (negb (nip n =? ip)); reflexivity.
   - destruct (id =? own s); [reflexivity|]. unfold node_replied.
@@ -75,7 +124,7 @@ Proof.
     destruct (lookup id _) as [[k' n1]|]; [|reflexivity].
     destruct (is_bad n1 && _); reflexivity.
   - unfold node_invalid. destruct (lookup id (tb (tab s))) as [[k n]|]; reflexivity.
-  - destruct (Model.token_valid sha s tok ip); reflexivity.
+  - destruct (Model.token_valid sha s tok ip); [destruct ((port <? 1) || (65535 <? port))|]; reflexivity.
   - destruct (get_tracker ih (trackers s)) as [[|p l]|];
       try (destruct (closest_nodes (tab s) ih) as [t' [|c l']]; reflexivity).
   - destruct (closest_nodes (tab s) target) as [t' [|c l']]; reflexivity.
@@ -163,23 +212,38 @@ Proof.
   - specialize (IH (S i) best bt). lia.
 Qed.
 
-(* DhtTracker::add_peer with a non-zero 16-bit port stores (ip, port FIELD = port value) *)
+(* DhtTracker::add_peer with a non-zero 16-bit port stores (ip, htons(port)) *)
 Lemma add_peer_has : forall t ip port l, port16 port <> 0 ->
-  In (mkPeer ip (port16 port) (t mod u32)) (add_peer t ip port l) /\ (length l <= length (add_peer t ip port l))%nat.
+  In (mkPeer ip (htons16 (port16 port)) (t mod u32)) (add_peer t ip port l) /\ (length l <= length (add_peer t ip port l))%nat.
 Proof.
   intros. unfold add_peer. destruct (port16 port =? 0) eqn:E; [apply N.eqb_eq in E; contradiction|].
-  destruct (update_peer ip (port16 port) (t mod u32) l) as [l'|] eqn:U.
+  cbv zeta.
+  destruct (update_peer ip (htons16 (port16 port)) (t mod u32) l) as [l'|] eqn:U.
   - destruct (update_peer_has _ _ _ _ _ U). split; [assumption|lia].
   - destruct (lenN l <? Params.dht_tracker_max_size) eqn:F.
     + split; [apply in_or_app; right; left; reflexivity|rewrite app_length; lia].
     + assert (length l <> 0)%nat.
       { intro Z. apply length_zero_iff_nil in Z. subst. vm_compute in F. discriminate. }
       pose proof (oldest_go_lt l 0 0 (u32 - 1) ltac:(lia)).
-      destruct (replace_nth_in peer (mkPeer ip (port16 port) (t mod u32)) l _ H1). split; [assumption|lia].
+      destruct (replace_nth_in peer (mkPeer ip (htons16 (port16 port)) (t mod u32)) l _ H1). split; [assumption|lia].
 Qed.
 
-(* what get_peers really returns for a small store: every stored peer as s_addr bytes followed by
-   the port field in HOST byte order (low byte first on the little-endian host) *)
+(* the memory bytes of the stored field are the port in network byte order *)
+Lemma htons16_bytes : forall p, p < 65536 ->
+  [htons16 p mod 256; (htons16 p / 256) mod 256] = [(p / 256) mod 256; p mod 256].
+Proof.
+  intros p Hp. unfold htons16.
+  assert (A : ((p mod 256) * 256 + (p / 256) mod 256) mod 256 = (p / 256) mod 256).
+  { rewrite N.add_comm, N.mod_add by discriminate. apply N.mod_mod. discriminate. }
+  assert (B : ((p mod 256) * 256 + (p / 256) mod 256) / 256 = p mod 256).
+  { rewrite N.add_comm, N.div_add by discriminate. rewrite N.div_small; [reflexivity|apply N.mod_lt; discriminate]. }
+  rewrite A, B. rewrite N.mod_mod by discriminate. reflexivity.
+Qed.
+
+Lemma port16_lt : forall p, port16 p < 65536.
+Proof. intros. unfold port16. apply N.mod_lt. discriminate. Qed.
+
+(* get_peers for a small store returns every stored peer as s_addr bytes + port field bytes *)
 Lemma get_peers_small : forall rnd l p, lenN l <= Params.dht_tracker_max_peers -> In p l ->
   In (ipbytes (pip p) ++ [pport p mod 256; (pport p / 256) mod 256]) (get_peers rnd l).
 Proof.
@@ -187,62 +251,196 @@ Proof.
   apply in_map_iff. exists p. split; [reflexivity|assumption].
 Qed.
 
-(* announce_then_get, in the byte order the code implements: after an accepted announce_peer
-   (ih, port) from ip, a get_peers for ih answers with values containing ip ++ port-field bytes in
-   host order, as long as the store for ih holds at most max_peers entries *)
-Lemma announce_then_get_hostorder : forall s ih ip port tok ip2 rnd,
-  err s = false -> token_valid s tok ip = true -> port16 port <> 0 ->
-  let s1 := fst (step s (OAnnounce ih ip port tok)) in
-  (forall l, get_tracker ih (trackers s1) = Some l -> lenN l <= Params.dht_tracker_max_peers) ->
-  exists t vals, snd (step s1 (OGetPeers ih ip2 rnd)) = Rpeers t vals /\
-                 In (ipbytes ip ++ [port16 port mod 256; (port16 port / 256) mod 256]) vals.
+(* the value a peer (ip, port) must appear as: 4 address bytes, port high byte, port low byte *)
+Definition compact_peer (ip port : N) : list N := ipbytes ip ++ [(port16 port / 256) mod 256; port16 port mod 256].
+
+Definition stored (ih ip port : N) (s : state) : Prop :=
+  exists l p, get_tracker ih (trackers s) = Some l /\ In p l /\ pip p = ip /\ pport p = htons16 (port16 port).
+
+Lemma stored_get_peers : forall s ih ip port ip2 rnd, err s = false -> stored ih ip port s ->
+  (forall l, get_tracker ih (trackers s) = Some l -> lenN l <= Params.dht_tracker_max_peers) ->
+  exists t vals, snd (step s (OGetPeers ih ip2 rnd)) = Rpeers t vals /\ In (compact_peer ip port) vals.
 Proof.
-  intros s ih ip port tok ip2 rnd He Hv Hp s1 Hsmall.
-  assert (S1 : s1 = with_trackers s (upd_tracker ih (add_peer (now s) ip port) (trackers s))).
-  { unfold s1, Model.step. rewrite He, Hv. reflexivity. }
-  assert (E1 : err s1 = false) by (rewrite S1; exact He).
+  intros s ih ip port ip2 rnd He [l [p [G [I [P1 P2]]]]] Small.
+  unfold Model.step. rewrite He, G. destruct l as [|p0 l]; [destruct I|].
+  eexists; eexists; split; [reflexivity|].
+  pose proof (get_peers_small rnd (p0 :: l) p (Small _ G) I) as H.
+  rewrite P1, P2, (htons16_bytes _ (port16_lt port)) in H. exact H.
+Qed.
+
+Lemma port_ok_16 : forall port, port_ok port -> port16 port = port /\ port16 port <> 0.
+Proof. intros port [A B]. unfold port16. rewrite N.mod_small by lia. split; [reflexivity|lia]. Qed.
+
+Lemma announce_stores : forall s ih ip port tok, err s = false -> token_valid s tok ip = true -> port_ok port ->
+  stored ih ip port (fst (step s (OAnnounce ih ip port tok))) /\ err (fst (step s (OAnnounce ih ip port tok))) = false.
+Proof.
+  intros s ih ip port tok He Hv Hpo. destruct (port_ok_16 _ Hpo) as [_ Hp].
+  unfold Model.step. rewrite He, Hv, (port_ok_test _ Hpo). simpl. split; [|exact He].
   pose proof (get_upd_tracker ih (add_peer (now s) ip port) (trackers s)) as G.
   set (l0 := match get_tracker ih (trackers s) with Some l => l | None => [] end) in G.
-  destruct (add_peer_has (now s) ip port l0 Hp) as [Hin Hlen].
-  assert (G1 : get_tracker ih (trackers s1) = Some (add_peer (now s) ip port l0)) by (rewrite S1; exact G).
-  specialize (Hsmall _ G1).
-  unfold Model.step. rewrite E1, G1.
-  destruct (add_peer (now s) ip port l0) as [|p l] eqn:A; [destruct Hin|].
-  eexists; eexists; split; [reflexivity|].
-  apply (get_peers_small rnd (p :: l) _ Hsmall Hin).
+  destruct (add_peer_has (now s) ip port l0 Hp) as [Hin _].
+  exists (add_peer (now s) ip port l0), (mkPeer ip (htons16 (port16 port)) (now s mod u32)).
+  repeat split; assumption.
+Qed.
+
+(* ops that leave the peer store of ih alone: everything except housekeeping (pruning) and
+   announces for the same info-hash (which may update or, at 128 peers, evict) *)
+Definition is_announce_q (m : dmsg) : bool :=
+  match m_q m with Some q => bytes_eqb q s_announce_peer | None => false end.
+Definition neutral (ih : N) (o : op) : bool :=
+  match o with
+  | OHousekeeping _ => false
+  | OAnnounce ih' _ _ _ => negb (ih' =? ih)
+  | ODgram _ _ m => negb (is_announce_q m)
+  | _ => true
+  end.
+
+Lemma get_upd_tracker_other : forall ih ih' f tr, ih' <> ih -> get_tracker ih (upd_tracker ih' f tr) = get_tracker ih tr.
+Proof.
+  induction tr as [|[h l] r IH]; simpl; intros Hn.
+  - destruct (ih' =? ih) eqn:E; [apply N.eqb_eq in E; contradiction|reflexivity].
+  - destruct (h =? ih') eqn:E1; simpl.
+    + apply N.eqb_eq in E1. subst h. destruct (ih' =? ih) eqn:E; [apply N.eqb_eq in E; contradiction|reflexivity].
+    + destruct (h =? ih); [reflexivity|apply IH; assumption].
+Qed.
+
+Lemma closest_fst_trackers : forall s id, trackers (with_tab s (fst (closest_nodes (tab s) id))) = trackers s.
+Proof. reflexivity. Qed.
+
+Lemma query_body_trackers : forall s ip rnd q m, bytes_eqb q s_announce_peer = false ->
+  trackers (fst (query_body sha s ip rnd q m)) = trackers s.
+Proof.
+  intros s ip rnd q m Hq. unfold query_body. rewrite Hq.
+  destruct (bytes_eqb q s_find_node).
+  { destruct (m_target m); [|reflexivity]. destruct (lenN l <? hs_len); [reflexivity|].
+    destruct (closest_nodes _ _) as [t' [|c l']]; reflexivity. }
+  destruct (bytes_eqb q s_get_peers).
+  { destruct (m_ih m); [|reflexivity]. destruct (lenN l <? hs_len); [reflexivity|].
+    destruct (get_tracker _ _) as [[|p l0]|]; try reflexivity;
+      destruct (closest_nodes _ _) as [t' [|c l']]; reflexivity. }
+  destruct (bytes_eqb q s_ping); reflexivity.
+Qed.
+
+Lemma node_queried_trackers : forall s id ip, trackers (fst (node_queried s id ip)) = trackers s.
+Proof.
+  intros. unfold node_queried. destruct (lookup id (tb (tab s))) as [[k n]|]; [|reflexivity].
+  destruct (negb (nip n =? ip)); reflexivity.
+Qed.
+
+Lemma dgram_trackers : forall s ip rnd m, is_announce_q m = false ->
+  trackers (fst (dgram sha s ip rnd m)) = trackers s.
+Proof.
+  intros s ip rnd m Hq. unfold dgram.
+  destruct (m_t m) as [t|]; [|reflexivity]. destruct (20 <? lenN t); [reflexivity|].
+  destruct (m_y m) as [[|ty [|? ?]]|]; try reflexivity.
+  destruct (ty =? 113); [|reflexivity]. destruct (m_id m) as [idb|]; [|reflexivity].
+  destruct (lenN idb <? hs_len); [reflexivity|].
+  generalize (be_to_N (firstn idbytes idb)). intro nid0. destruct (nid0 =? own s); [reflexivity|].
+  unfold is_announce_q in Hq. destruct (m_q m) as [q|]; [|reflexivity].
+  pose proof (query_body_trackers s ip rnd q m Hq) as H.
+  destruct (query_body sha s ip rnd q m) as [s1 [e|[[tok nodes] vals]]]; cbn [fst snd] in *; [assumption|].
+  rewrite node_queried_trackers. assumption.
+Qed.
+
+Lemma neutral_step : forall ih s o, neutral ih o = true ->
+  get_tracker ih (trackers (fst (step s o))) = get_tracker ih (trackers s) /\
+  (err (fst (step s o)) = false -> err s = false).
+Proof.
+  intros ih s o Hn. unfold Model.step. destruct (err s) eqn:He; [split; [reflexivity|simpl; intro; congruence]|].
+  split; [|reflexivity].
+  destruct o as [ip rnd m|ip|dt|id ip port|id ip port|id ip port|id|secret|ip0|tok ip0|ih0 ip0 port tok|ih0 ip0 rnd|target|id|];
+    simpl in *; try reflexivity; try discriminate.
+  - assert (D : trackers (fst (dgram sha s ip rnd m)) = trackers s) by (apply dgram_trackers; destruct (is_announce_q m); [discriminate|reflexivity]).
+    destruct (m_y m) as [[|ty [|? ?]]|]; try (destruct (dgram sha s ip rnd m); simpl in *; rewrite D; reflexivity).
+    destruct ((ty =? 114) || (ty =? 101)); [reflexivity|]. destruct (dgram sha s ip rnd m); simpl in *; rewrite D; reflexivity.
+  - destruct (id =? own s); [reflexivity|]. rewrite (surjective_pairing (node_queried s id ip)). simpl.
+    rewrite node_queried_trackers. reflexivity.
+  - destruct (id =? own s); [reflexivity|]. unfold node_replied.
+    destruct (lookup id (tb (tab s))) as [[k n]|].
+    + destruct (negb (nip n =? ip)); reflexivity.
+    + destruct (negb (want_node s id)); [reflexivity|].
+      destruct (add_node_to_bucket _ _ _ _) as [t [|]|t|]; try reflexivity.
+      destruct (lookup id (tb t)) as [[k n]|]; reflexivity.
+  - destruct (id =? own s); [reflexivity|]. unfold node_inactive.
+    destruct (lookup id (tb (tab s))) as [[k n]|]; [|reflexivity]. destruct (negb (nip n =? ip)); [reflexivity|].
+    destruct (lookup id _) as [[k' n1]|]; [|reflexivity].
+    destruct (is_bad n1 && _); reflexivity.
+  - unfold node_invalid. destruct (lookup id (tb (tab s))) as [[k n]|]; reflexivity.
+  - destruct (Model.token_valid sha s tok ip0); [|reflexivity]. destruct ((port <? 1) || (65535 <? port)); [reflexivity|]. simpl.
+    apply get_upd_tracker_other. apply negb_true_iff in Hn. apply N.eqb_neq in Hn. assumption.
+  - destruct (get_tracker ih0 (trackers s)) as [[|p l]|];
+      try (destruct (closest_nodes (tab s) ih0) as [t' [|c l']]; reflexivity).
+  - destruct (closest_nodes (tab s) target) as [t' [|c l']]; reflexivity.
+Qed.
+
+Lemma neutral_run : forall ih ops s, forallb (neutral ih) ops = true -> err (run s ops) = false ->
+  get_tracker ih (trackers (run s ops)) = get_tracker ih (trackers s) /\ err s = false.
+Proof.
+  induction ops as [|o ops IH]; simpl; intros s Hn He; [split; [reflexivity|assumption]|].
+  apply andb_true_iff in Hn. destruct Hn as [H1 H2].
+  destruct (IH _ H2 He) as [G E]. destruct (neutral_step ih s o H1) as [G' E'].
+  split; [rewrite G; exact G'|apply E'; assumption].
+Qed.
+
+(* announce_then_get: after an accepted announce_peer(ih, port) from ip, and then ANY list of
+   ops that does not prune (no housekeeping) and carries no further announce for ih, a get_peers
+   for ih answers with values that contain ip ++ port in NETWORK byte order (while the store for
+   ih holds at most max_peers entries, i.e. the answer is not a random block of a larger store) *)
+Lemma announce_then_get : forall s ih ip port tok ops ip2 rnd,
+  err s = false -> token_valid s tok ip = true -> port_ok port ->
+  forallb (neutral ih) ops = true ->
+  let s2 := run (fst (step s (OAnnounce ih ip port tok))) ops in
+  err s2 = false ->
+  (forall l, get_tracker ih (trackers s2) = Some l -> lenN l <= Params.dht_tracker_max_peers) ->
+  exists t vals, snd (step s2 (OGetPeers ih ip2 rnd)) = Rpeers t vals /\ In (compact_peer ip port) vals.
+Proof.
+  intros s ih ip port tok ops ip2 rnd He Hv Hp Hn s2 He2 Small.
+  destruct (announce_stores s ih ip port tok He Hv Hp) as [[l [p [G [I [P1 P2]]]]] _].
+  destruct (neutral_run ih ops _ Hn He2) as [G2 _].
+  apply stored_get_peers; try assumption.
+  exists l, p. repeat split; try assumption. unfold s2. rewrite G2. exact G.
+Qed.
+
+(* "until pruned": housekeeping keeps a peer that announced within the last timeout_peer_announce
+   seconds (no 2^32 wrap of the clock) *)
+Lemma housekeeping_keeps : forall s ih ip port secret l p,
+  err s = false -> get_tracker ih (trackers s) = Some l -> In p l -> pip p = ip -> pport p = htons16 (port16 port) ->
+  now s < u32 -> Params.dht_timeout_peer_announce <= now s -> now s <= pseen p + Params.dht_timeout_peer_announce ->
+  stored ih ip port (fst (step s (OHousekeeping secret))).
+Proof.
+  intros s ih ip port secret l p He G I P1 P2 Nw Nl Fresh.
+  unfold Model.step. rewrite He. simpl. unfold stored. simpl.
+  assert (K : In p (prune (now s) l)).
+  { unfold prune. apply filter_In. split; [assumption|]. apply negb_true_iff. apply N.ltb_ge.
+    replace (Params.dht_timeout_peer_announce mod u32) with Params.dht_timeout_peer_announce by (vm_compute; reflexivity).
+    replace ((now s + u32 - Params.dht_timeout_peer_announce) mod u32) with (now s - Params.dht_timeout_peer_announce).
+    - lia.
+    - replace (now s + u32 - Params.dht_timeout_peer_announce) with ((now s - Params.dht_timeout_peer_announce) + 1 * u32) by lia.
+      rewrite N.mod_add by (vm_compute; discriminate). symmetry. apply N.mod_small. lia. }
+  exists (prune (now s) l), p. repeat split; try assumption.
+  clear - G K. induction (trackers s) as [|[h l0] r IH]; simpl in *; [discriminate|].
+  destruct (h =? ih) eqn:E.
+  - inversion G; subst l0. destruct (prune (now s) l) eqn:PR; [destruct K|]. simpl. rewrite E. reflexivity.
+  - destruct (prune (now s) l0); simpl; [|rewrite E]; apply IH; assumption.
 Qed.
 
 End Tokens.
 
-(* announce_then_get as the property states it (network byte order) is FALSE of the code:
-   DhtTracker::add_peer receives the bencode integer a.port in host order and stores it unchanged
-   in SocketAddressCompact.port, whose bytes go onto the wire as they lie in memory. *)
+(* the witness that refuted announce_then_get before /repo commit 7a0fd15 (add_peer stored the port
+   in host byte order: 1.2.3.4:6881 came back as 01 02 03 04 e1 1a); kept as a regression example *)
 Definition wit_sha (x : list N) : list N := repeat 7 20.
 Definition wit_ih : N := 1.
 Definition wit_ip : N := 16909060.       (* 1.2.3.4 *)
 Definition wit_port : N := 6881.         (* 0x1ae1 *)
 Definition wit_state : state := init (2 ^ 159 + 1) 111 222 34560000.
 
-Lemma announce_then_get_refuted :
-  exists (sha : list N -> list N) s ih ip port tok ip2 rnd,
-    (forall x, length (sha x) = 20%nat) /\ err s = false /\ token_valid sha s tok ip = true /\ port16 port <> 0 /\
-    let s1 := fst (step sha s (OAnnounce ih ip port tok)) in
-    exists t vals, snd (step sha s1 (OGetPeers ih ip2 rnd)) = Rpeers t vals /\
-      (* the accepted (ip, port) in network byte order is NOT among the values ... *)
-      ~ In (ipbytes ip ++ [(port / 256) mod 256; port mod 256]) vals /\
-      (* ... the byte-swapped port is *)
-      vals = [ipbytes ip ++ [port mod 256; (port / 256) mod 256]].
-Proof.
-  exists wit_sha, wit_state, wit_ih, wit_ip, wit_port, (token_for wit_sha 111 wit_ip), 5, 0.
-  split; [intros; reflexivity|]. split; [reflexivity|]. split; [vm_compute; reflexivity|].
-  split; [vm_compute; discriminate|].
-  cbv zeta. eexists; eexists. split; [vm_compute; reflexivity|].
-  split; [|vm_compute; reflexivity].
-  vm_compute. intros [H|[]]. discriminate H.
-Qed.
+Example announce_then_get_witness :
+  let s1 := fst (step wit_sha wit_state (OAnnounce wit_ih wit_ip wit_port (token_for wit_sha 111 wit_ip))) in
+  snd (step wit_sha s1 (OGetPeers wit_ih 5 0)) = Rpeers (token_for wit_sha 111 5) [[1; 2; 3; 4; 26; 225]].
+Proof. vm_compute. reflexivity. Qed.
 
-(* non-vacuity of the hypotheses of announce_then_get_hostorder / token_lifetime *)
+(* non-vacuity of the hypotheses of announce_then_get / token_lifetime *)
 Example tokens_hyps_sat :
   err wit_state = false /\ token_valid wit_sha wit_state (token_for wit_sha 111 wit_ip) wit_ip = true /\
-  port16 wit_port <> 0 /\ err (run wit_sha wit_state [OHousekeeping 5; OTick 900; OHousekeeping 6]) = false.
-Proof. repeat split; try (vm_compute; reflexivity). vm_compute. discriminate. Qed.
+  port_ok wit_port /\ err (run wit_sha wit_state [OHousekeeping 5; OTick 900; OHousekeeping 6]) = false.
+Proof. repeat split; try (vm_compute; reflexivity); vm_compute; discriminate. Qed.
